@@ -117,14 +117,6 @@ def pDur : Expr → Bool
 cannot produce a DURATIONVAL that starts with `-`, see `yacc_durs_in_range`). -/
 def DursInRange : Expr → Bool := allNodes pDur
 
-def pSets : Expr → Bool
-  | .set vals => setRT vals
-  | _ => true
-
-/-- not a defect class: the members of a SetLiteral, printed in key order, are read back into
-the same key set (holds for every set the model builds; the driver checks it on every case). -/
-def SetsReadBack : Expr → Bool := allNodes pSets
-
 /-! ### what the statement grammar produces -/
 
 /-- a child that `Precedence()` would group differently is one of the three grouping defects. -/
@@ -146,6 +138,7 @@ def nodeOK : Expr → Bool
   | .int v => decide (minInt64 ≤ v) && decide (v ≤ maxInt64)
   | .num n => n.scale = 0 || n.mant % 10 != 0
   | .uns _ | .numInf | .numNegInf | .numNaN => false
+  | .set vals => setCanon vals
   | .call name args => lower name = name && argsNoSet args
   | .paren e => noSetFirst e
   | .binary op l r =>
